@@ -74,6 +74,7 @@ class Case:
         # post_assume: the same fact generalised over the free index constants of `post` (sound: the body is
         # verified for arbitrary values of those constants); used at call sites where a quantified hypothesis helps
         self.post_assume = post_assume
+        self.excluding = ()  # raise cases: exception classes (and their subclasses) this case does NOT cover
         self.name, self.kind, self.exc = name, kind, exc
         self.when = when or (lambda a, h: z3.BoolVal(True))
         self.post = post or (lambda a, h, h2, res: [])
@@ -85,6 +86,7 @@ class Contract:
     def __init__(self, target, params, requires=None, modifies=None, cases=None, props=(), trusted=False,
                  defaults=None, note="", selfcls=None, allocates=False, ghost_update=None, time=None, probes=None, linearize_at_lock=False):
         self.linearize_at_lock = linearize_at_lock  # pre-state of the post = state at the first monitor-lock acquisition
+        self.ghost_init = None  # (a, h) -> {key: value}: ghost context of the executing code (e.g. which gateway records callback calls)
         self.stable_at_acquire = None  # (a, h_after) -> [z3]: facts about shared state only this thread can invalidate (Owicki-Gries stability, listed as assumptions)
         self.probes = probes  # (a, h) -> {name: z3 term}: values wanted in counter-models
         self.target = target
